@@ -268,8 +268,6 @@ structure Decoded where
   cells : List (Nat × Byte)
   /-- the global symbols: name, st_value -/
   symbols : List (List Byte × Nat)
-  /-- the PT_LOAD segments: p_vaddr and the file bytes -/
-  loads : List (Nat × List Byte)
   deriving Repr, DecidableEq
 
 def headerOk (flen : Nat) (e : Ehdr) : Bool :=
@@ -284,22 +282,34 @@ def decode (f : List Byte) : Option Decoded :=
   | none => none
   | some e =>
     if headerOk f.length e then
-      match parseShdrs e.big e.cls e.shnum (f.drop e.shoff), parsePhdrs e.big e.cls e.phnum (f.drop e.phoff) with
-      | some secs, some phs =>
+      match parseShdrs e.big e.cls e.shnum (f.drop e.shoff) with
+      | some secs =>
         let shstr := match secs[e.shstrndx]? with
           | some st => if st.type = 3 then slice f st.offset st.size else []
           | none => []
         if secs.all (sectionInFile f.length) ∧ secs.all (stringsOk f) ∧ (secs.head?.all (fun s => s.type = 0)) ∧
-           (e.shnum = 0 ∨ (shstr ≠ [] ∧ validStrtab shstr ∧ secs.all (fun s => s.name < shstr.length))) ∧
-           phs.all (fun p => p.1 ≠ 1 ∨ p.2.2.1 + p.2.2.2 ≤ f.length) then
+           (e.shnum = 0 ∨ (shstr ≠ [] ∧ validStrtab shstr ∧ secs.all (fun s => s.name < shstr.length))) then
           match allSyms f e secs secs with
           | none => none
           | some syms =>
             some { cls := e.cls, big := e.big, machine := e.machine, entry := e.entry,
-                   cells := secs.flatMap (progCells f), symbols := syms,
-                   loads := (phs.filter (fun p => p.1 = 1)).map (fun p => (p.2.1, slice f p.2.2.1 p.2.2.2)) }
+                   cells := secs.flatMap (progCells f), symbols := syms }
         else none
-      | _, _ => none
+      | none => none
+    else none
+
+/-- the execution view: the PT_LOAD segments as (p_vaddr, file bytes); every one must lie inside the file -/
+def decodeLoads (f : List Byte) : Option (List (Nat × List Byte)) :=
+  match parseEhdr f with
+  | none => none
+  | some e =>
+    if headerOk f.length e then
+      match parsePhdrs e.big e.cls e.phnum (f.drop e.phoff) with
+      | none => none
+      | some phs =>
+        if phs.all (fun p => p.1 ≠ 1 ∨ p.2.2.1 + p.2.2.2 ≤ f.length) then
+          some ((phs.filter (fun p => p.1 = 1)).map (fun p => (p.2.1, slice f p.2.2.1 p.2.2.2)))
+        else none
     else none
 
 end NakenVerif.FileIO.ElfSpec
